@@ -6,7 +6,7 @@ PID = "C13"
 RULE = ("non-trivial = a nested 2-D/3-D/spherical case whose limit pairs are pairwise distinct (disjoint intervals per axis, so that a swapped "
         "argument or a swapped pair of limits is visible) with an integrand that is not symmetric under exchange of its arguments, or a 1-D case "
         "with reversed or equal limits, an explicit method_parameter, an unknown method name or a user function that is itself defined through an integral "
-        "(re-entrant call of the library), or a direct call of one of the two table overloads of Integrate_Gauss_Legendre that terminates or has two or more rows, or a session of two or more calls made one after the other by one process, or a call made before main "
+        "(re-entrant call of the library, to any depth), or a direct call of one of the two table overloads of Integrate_Gauss_Legendre that terminates or has two or more rows, or a session of two or more calls made one after the other by one process, or a call made before main "
         "(during the static initialisation of the caller's translation unit); distinct by case text")
 LEVEL_TEXT = ("Theorems (Coq, all inputs, over the reals): the dispatch of Integrate(func,a,b,method,parameter) — each of the six names selects its back end "
               "with the stated parameter default (Gauss-Kronrod depth 5, Gauss-Legendre_2 30 points), every other name terminates when the limits differ, equal "
@@ -43,7 +43,18 @@ LEVEL_TEXT = ("Theorems (Coq, all inputs, over the reals): the dispatch of Integ
               "|S2-S| test although it is off by far more than the tolerance; K-C13-3: the trapezoidal rule of boost stops after 12 refinements (2049 evaluations) short of 1e-6 on integrands with steep, opposite slopes at the limits. "
               "Also on the implementation (S4): integrands that vanish where a rule takes its first samples (oscillations with limits and midpoint on their zeros or extrema, whole periods, a ladder of distances 1e-15..1e-4 from them; "
               "polynomial and rational integrands with exact zeros at the limits and the midpoint, so that the tolerance of the adaptive Simpson rule is 0 or next to 0), sign-changing integrands under the adaptive Simpson rule, "
-              "and sessions whose numbers of points are congruent modulo every m <= 128 and the usual table sizes beyond (coarse first and fine first, across the entry points).")
+              "and sessions whose numbers of points are congruent modulo every m <= 128 and the usual table sizes beyond (coarse first and fine first, across the entry points). "
+              "Nesting to any depth: theorems over any number type, any one-dimensional integrator and any number of levels about the general stack of levels nest_nd (not extracted itself; "
+              "C13_stack_of_levels_is_front_end_nesting: cut at two and three limit pairs it is the nesting of Integrate_2D/Integrate_3D that is extracted and compared) - "
+              "C13_nesting_depth_composes (the levels of a stack entered from the innermost integrand of another are the next levels of one stack) and C13_inner_stack_independent_of_depth "
+              "(a stack whose integrand reads its own variables only has the value it has from the top level wherever it is entered). On the implementation (S4): user functions defined through calls of the "
+              "four entry points inside the integrand, recursively ('@@' cases: towers of 4 .. 12 levels of Integrate active at once, 3D in 3D in 3D and beyond, one method or mixed methods, equal and different "
+              "method_parameters per level, quotient / product / sum of a level with the call below it), each answer compared bit for bit with the answer of the same call when every inner call is made beforehand "
+              "from the top level (nesting-depth-dependence), with the model, and with the closed form (low-order Gauss-Legendre_2 rules on polynomials they integrate exactly: 1e-13 per level). "
+              "Nested adaptive Simpson integrals that are large as a whole (the evaluations of the levels multiply): 2^19 evaluations in the quick tier, 2^25.5 and 2^27.4 (1.8e8, beyond any per-call "
+              "limit of a single level, about a minute) in the THOROUGH tier only; the number of evaluations of the nested adaptive rule on a product of sign-definite factors is compared with the product of the "
+              "evaluations its stopping rule takes per level (evaluation-count). A limit or counter shared between nesting levels that only bites beyond about 1e6 evaluations in one request is therefore "
+              "seen by the thorough tier, not by the quick tier.")
 LEVEL_NOTE = ("Coq 8.16.1 kernel; theorems over R use the standard library's real-number axioms and Coquelicot's RInt (axioms listed in the evidence); premises carried by the theorems: "
               "exactness of the selected 1-D back end on the integrands that occur, continuity/integrability of the integrand; boost::math::quadrature (trapezoidal, gauss<30>, "
               "gauss_kronrod<31>, tanh_sinh) is external code modelled as a Section variable; hand-written model tied by differential correspondence (extraction with ExtrOcamlBasic only)")
@@ -62,6 +73,9 @@ ASSUMPTIONS = ["a call 'before main' is made from the constructor of the last na
                "further smooth integrands, in one dimension: damped sines exp(-a v) sin(w v) and cosines with limits on their zeros and extrema (up to two periods) and at relative distances 1e-15 .. 1e-4 from them, and the polynomials "
                "(v-A)(B-v)(v-C)^2, u^2(h^2-u^2)(u^2-h^2/4) and the rational functions u^2(h^2-u^2)/(h^2+k u^2) (u = v-C, C the midpoint and h the half width of [A,B], dyadic), which vanish at the limits and the midpoint (and the quarter points)",
                "a user function defined through an inner integral is expected within (accuracy of the inner method) * (integral of |inner integrand|) * (outer width) in addition; under an adaptive outer method the inner method is one that is accurate to rounding on the smooth families",
+               "Gauss-Legendre_2 with n < 20 points carries no accuracy claim on smooth integrands; on polynomials of degree <= 2n - 1 (classical exactness of the n-point Gauss rule) its result is expected "
+               "within 1e-13 of the integral of |integrand| per level (rounding of n products and of roots and weights, whose Newton iteration stops at 1e-14): used for the towers of nested calls",
+               "in a tower of nested calls the limits of the inner calls are constants, so that the same inner call can be made beforehand from the top level (flat value)",
                "sharply peaked integrands under Gauss-Kronrod with explicit recursion depths 1..15 carry no accuracy claim; they are compared bit for bit with the direct nested call of boost's gauss_kronrod with the same depth"]
 
 BOOST = ("Trapezoidal", "Gauss-Legendre", "Gauss-Kronrod", "Tanh-Sinh")
@@ -482,6 +496,8 @@ def generate(rng, tier):
     cs += gen_preinit(rng, big, P)
     cs += gen_zero_samples(rng, big, P)
     cs += gen_gl_overloads(rng, big)
+    cs += gen_deep(rng, big)
+    cs += gen_heavy_simpson(rng, big)
     return cs
 
 
@@ -1290,6 +1306,228 @@ def gen_sharp(rng, big):
     return cs
 
 
+# ---- user functions that are defined through calls of the library to any depth ('@@' in the case grammar): a normalisation computed by an integral inside
+#      an integrand whose own integrand does the same again.  Towers of the four entry points (1, 2, 3 and 3 levels of Integrate each) with 4 .. 12 levels
+#      active at once, one method at every level or the methods mixed, equal and different method_parameters from level to level, every way of combining a
+#      level with the call below it (quotient, product, sum).  Each answer is compared with the model, with the closed form, and with the answer of the same
+#      call when every inner call is made beforehand from the top level (flat): the answer of a call does not depend on the depth at which it is made.
+#      Low-order Gauss-Legendre_2 rules (n points are exact on polynomials of degree <= 2n - 1) make twelve levels cost 2^12 evaluations.
+OPC = {"div": "/", "mul": "*", "add": "+"}
+LEVELS_OF = {"named1d": 1, "nested2d": 2, "nested3d": 3, "spherical": 3}
+
+
+def level_body(lv):
+    if lv["op"] == "spherical": return lv["facs"][0].text(NORM)
+    return product_text(lv["facs"], "xyz"[:len(lv["facs"])])
+
+
+def deep_text(levels):
+    t = level_body(levels[-1])
+    for j in range(len(levels) - 2, -1, -1):
+        lv, nx = levels[j], levels[j + 1]
+        t = f"{OPC[lv['comb']]} {level_body(lv)} v 3 @@ {nx['op']} {nx['method']} {nx['p']} " + " ".join(f"c {hx(x)}" for x in nx["lims"]) + " " + t
+    return t
+
+
+def deep_ann(levels):
+    out = ["deep", str(len(levels))]
+    for lv in levels:
+        out += [lv["op"], lv["method"], str(lv["p"]), lv["comb"]] + [hx(x) for x in lv["lims"]] + [str(len(lv["facs"]))] + [f.ann() for f in lv["facs"]]
+    return " ".join(out)
+
+
+def parse_deep(ann):
+    k = 2; levels = []
+    for _ in range(int(ann[1])):
+        op, method, p, comb = ann[k], ann[k + 1], int(ann[k + 2]), ann[k + 3]; k += 4
+        nl = 2 * dims(op); lims = [float.fromhex(x) for x in ann[k:k + nl]]; k += nl
+        nf = int(ann[k]); k += 1; facs = []
+        for _ in range(nf):
+            m = NPAR[ann[k]]; facs.append(Fac(ann[k], *[float.fromhex(x) for x in ann[k + 1:k + 1 + m]])); k += 1 + m
+        levels.append({"op": op, "method": method, "p": p, "comb": comb, "lims": lims, "facs": facs})
+    return levels
+
+
+def poly_degree(f):
+    return int(f.p[1]) if f.name == "mono" else 1 if f.name == "affine" else None
+
+
+def level_accuracy(lv):
+    """accuracy spent on one level of Integrate, relative to the integral of |integrand|: the accuracy of the method; for Gauss-Legendre_2 with fewer than 20
+    points (no accuracy claim on smooth integrands) the rule is exact on polynomials of degree <= 2n - 1, leaving the rounding of n products and of roots and
+    weights (1e-13); None when neither applies"""
+    if lv["method"] == "Gauss-Legendre_2" and 0 < lv["p"] < 20:
+        for f in lv["facs"]:
+            dg = poly_degree(f)
+            if dg is None or dg + (2 if lv["op"] == "spherical" else 0) > 2 * lv["p"] - 1: return None
+        return 1e-13
+    return acc_of(lv["method"])
+
+
+def deep_exact(levels):
+    """(closed form, natural scale, slack) of a tower of calls, innermost first; None when a level carries no claim"""
+    N = None
+    for lv in reversed(levels):
+        lim = lv["lims"]; d = dims(lv["op"]); acc = level_accuracy(lv)
+        if acc is None: return None
+        if lv["op"] == "spherical":
+            g = lv["facs"][0]; r1, r2, c1, c2, f1, f2 = lim
+            ang = (c2 - c1) * (f2 - f1)
+            I = ang * (g.R2(r2) - g.R2(r1)); vol = ang * (r2 ** 3 - r1 ** 3) / 3
+            lo, hi = min(r1, r2), max(r1, r2); n = 64; h = (hi - lo) / n
+            sc = abs(ang) * sum((1 if k in (0, n) else 4 if k % 2 else 2) * (lo + k * h) ** 2 * abs(g.g(lo + k * h)) for k in range(n + 1)) * h / 3
+        else:
+            I = sc = vol = 1.0
+            for k, f in enumerate(lv["facs"]):
+                a, b = lim[2 * k], lim[2 * k + 1]
+                I *= f.integral(a, b); sc *= f.l1(a, b); vol *= (b - a)
+        if N is None: ex, scale, slack = I, sc, d * acc * sc
+        else:
+            n_, nsc, nsl = N
+            if lv["comb"] == "mul": ex, scale = I * n_, sc * abs(n_); slack = d * acc * scale + sc * nsl
+            elif lv["comb"] == "div" and not (nsl <= 0.01 * abs(n_)): return None
+            elif lv["comb"] == "div": ex, scale = I / n_, sc / abs(n_); slack = d * acc * scale + 1.01 * sc * nsl / (n_ * n_)
+            else: ex, scale = I + n_ * vol, sc + abs(n_ * vol); slack = d * acc * scale + abs(vol) * nsl
+        slack += 1e-13 * scale
+        N = (ex, scale, slack)
+    return N
+
+
+def deep_methods(fex):
+    t = fex.split()
+    return [t[k + 2] for k in range(len(t)) if t[k] == "@@"]
+
+
+def gen_deep(rng, big):
+    cs = []
+    GL2 = "Gauss-Legendre_2"
+
+    def level(op, method, p, maxdeg):
+        d = dims(op)
+        if op == "spherical":
+            r1 = rng.uniform(0.2, 1.0); r2 = r1 + rng.uniform(0.5, 1.5)
+            if rng.random() < 0.4: r1, r2 = r2, r1
+            if rng.random() < 0.3: c1, c2, f1, f2 = -1.0, 1.0, 0.0, 2 * math.pi
+            else:
+                c1 = rng.uniform(-1.0, 0.5); c2 = rng.uniform(c1 + 0.2, 1.0); f1 = rng.uniform(0.0, 4.0); f2 = rng.uniform(f1 + 0.3, 6.28)
+                if rng.random() < 0.4: c1, c2 = c2, c1
+                if rng.random() < 0.4: f1, f2 = f2, f1
+            lims = [r1, r2, c1, c2, f1, f2]
+            facs = [Fac("mono", rng.choice([1.0, 0.5, 2.0]), rng.randint(0, max(0, min(2, maxdeg - 2))))] if maxdeg < 99 else \
+                   [rng.choice([Fac("expdec", rng.uniform(0.3, 1.5)), Fac("rational", rng.uniform(0.1, 2.0)), Fac("gauss", rng.uniform(0.5, 3.0), 0.0)])]
+        else:
+            ls = [limits(rng, k, rng.random() < 0.6) for k in range(d)]
+            lims = [x for lm in ls for x in lm]
+            if maxdeg < 99: facs = [rng.choice([Fac("mono", rng.choice([1.0, 0.5, 2.0]), rng.randint(1, min(3, maxdeg))), Fac("affine", rng.uniform(0.5, 3), rng.uniform(0.2, 2))]) for _ in range(d)]
+            elif method == "Trapezoidal": facs = [rand_fac(rng, *ls[k], affine=True) for k in range(d)]
+            else: facs = [rand_fac(rng, *ls[k], positive=True) for k in range(d)]
+        return {"op": op, "method": method, "p": p, "comb": rng.choice(["div", "div", "mul", "add"]), "lims": lims, "facs": facs}
+
+    def emit(levels, *tags):
+        top = levels[0]
+        depth = sum(LEVELS_OF[lv["op"]] for lv in levels)
+        cs.append(Case(f"{top['op']} {top['method']} {top['p']} " + " ".join(hx(x) for x in top["lims"]) + f" {deep_text(levels)} # {deep_ann(levels)}",
+                       (top["op"], "nested-calls", "depth-%d" % depth) + tags))
+
+    def tower(shape, method_of, par_of, maxdeg_of):
+        return [level(op, method_of(j), par_of(j), maxdeg_of(j)) for j, op in enumerate(shape)]
+
+    ops3 = ["nested3d", "spherical"]
+    # nine to twelve levels of one low-order rule (the number of points the same at every level, or different from level to level)
+    shapes = [["nested3d"] * 3, [rng.choice(ops3) for _ in range(3)], ["spherical", "nested3d", "nested3d"], ["nested2d"] * 5, ["named1d"] * rng.randint(9, 12),
+              ["nested3d", "nested2d", "named1d", "nested3d", "nested2d"], [rng.choice(ops3) for _ in range(4)]]
+    if big: shapes += [[rng.choice(["named1d", "nested2d", "nested3d", "spherical"]) for _ in range(rng.randint(4, 6))] for _ in range(12)]
+    for shape in shapes:
+        depth = sum(LEVELS_OF[o] for o in shape)
+        if depth < 8: shape = shape + ["nested3d"]; depth += 3
+        same = rng.random() < 0.6
+        n0 = 2 if depth > 10 or rng.random() < 0.5 else 3
+        ns = [n0 if same else rng.choice([2, 3] if depth <= 10 else [2, 2, 3]) for _ in shape]
+        emit(tower(shape, lambda j: GL2, lambda j: ns[j], lambda j: 2 * ns[j] - 1), GL2, "same-points" if same else "points-differ")
+    # shallower towers: five points; the default rule inside a low-order one; the adaptive Simpson rule and the trapezoidal rule on polynomials (a handful of
+    # evaluations per level); the methods mixed from level to level
+    emit(tower(["nested3d", "nested3d"], lambda j: GL2, lambda j: 5, lambda j: 3), GL2, "same-points")
+    emit(tower(["nested2d", "nested2d", "named1d"], lambda j: GL2, lambda j: (3, 4, 0)[j], lambda j: (3, 3, 99)[j]), GL2, "default-rule-innermost")
+    for method, shape in [("Adaptive-Simpson", rng.choice([["nested3d", "nested2d"], ["nested2d", "nested3d"], ["named1d"] * 5])),
+                          ("Trapezoidal", rng.choice([["named1d", "nested2d"], ["nested2d", "named1d"], ["named1d", "named1d", "named1d"]]))] + \
+                         ([("Adaptive-Simpson", ["nested3d", "nested3d"]), ("Adaptive-Simpson", ["nested3d", "spherical"]), ("Trapezoidal", ["nested2d", "named1d"]),
+                           ("Gauss-Legendre", ["nested2d", "named1d"]), ("Gauss-Kronrod", ["named1d", "nested2d"]), ("Tanh-Sinh", ["named1d", "named1d"])] if big else []):
+        # (the model answers a boost method by a 60-point stand-in rule per level: at most three such levels)
+        if method in ("Adaptive-Simpson", "Trapezoidal"):
+            lv = tower(shape, lambda j: method, lambda j: rng.choice([0, 0, 7]), lambda j: 1 if method == "Trapezoidal" else 3)
+            if method == "Adaptive-Simpson":        # (radial profiles under three nested adaptive levels: degree <= 1, as elsewhere)
+                for l_ in lv:
+                    if l_["op"] == "spherical": l_["facs"] = [Fac("mono", 1.0, rng.randint(0, 1))]
+        else:
+            lv = tower(shape, lambda j: method, lambda j: {"Gauss-Kronrod": rng.choice([0, 1, 2])}.get(method, 0), lambda j: 99)
+        emit(lv, method, "same-method")
+    for _ in range(6 if big else 2):
+        shape = [rng.choice(["named1d", "nested2d", "nested3d", "spherical"]) for _ in range(rng.randint(3, 4))]
+        ms = [rng.choice([GL2, GL2, "Adaptive-Simpson"]) for _ in shape]
+        if shape[-1] == "named1d" and rng.random() < 0.5: ms[-1] = "Trapezoidal"
+        ps = [rng.choice([2, 3]) if m == GL2 else rng.choice([0, 7]) for m in ms]
+        lv = tower(shape, lambda j: ms[j], lambda j: ps[j], lambda j: 1 if ms[j] == "Trapezoidal" else min(3, 2 * ps[j] - 1) if ms[j] == GL2 else 3)
+        for l_ in lv:
+            if l_["op"] == "spherical" and l_["method"] != GL2: l_["facs"] = [Fac("mono", 1.0, rng.randint(0, 1))]
+        emit(lv, "methods-mixed")
+    return cs
+
+
+# ---- nested adaptive Simpson integrals that are large as a whole: the numbers of evaluations of the levels multiply (the tolerance is relative, so every
+#      inner call takes the same number), and a request whose levels take a few hundred evaluations each takes 2^19 (two levels, every tier) or 2^25.5 and
+#      2^27.4 in total (three levels, thorough tier: 1.8e8 evaluations, about a minute for implementation and model) - far beyond what a single one-dimensional call can take (2^22 at
+#      the depth limit); whatever is counted or limited per call must not be shared between the levels.  Rational factors 1/(1 + k v^2) on wide intervals
+#      (cheap to evaluate, several hundred evaluations per level), distinct limits per axis, every orientation.
+class _TooMany(Exception): pass
+
+
+def as_count(fun, a, b, cap=None):
+    """the number of evaluations the adaptive Simpson rule of the source takes on an exactly known integrand (None beyond cap)"""
+    cnt = [0]
+    def g(t):
+        cnt[0] += 1
+        if cap and cnt[0] > cap: raise _TooMany()
+        return fun(t)
+    try: as_sim(g, a, b)
+    except _TooMany: return None
+    return cnt[0] + 3          # (the three samples of Find_Epsilon)
+
+
+def as_expected_evaluations(lim, facs):
+    """nested adaptive Simpson integral of a product of factors: the tolerance of every call is relative to its own three-point estimate, so a call on g(v) times a
+    constant other than zero takes the evaluations of the call on g - the levels multiply (None when a factor has a zero between its limits)"""
+    n = 1
+    for k, f in enumerate(facs):
+        # (a factor that vanishes at a point where an outer level samples it makes the inner integrand identically zero there: accepted at once)
+        lo, hi = min(lim[2 * k], lim[2 * k + 1]), max(lim[2 * k], lim[2 * k + 1])
+        vals = [f.g(lo + (hi - lo) * j / 256.0) for j in range(257)]
+        if not (min(vals) > 0.0 or max(vals) < 0.0): return None
+        c = as_count(f.g, lim[2 * k], lim[2 * k + 1], cap=20000)
+        if c is None: return None
+        n *= c
+    return n
+
+
+def gen_heavy_simpson(rng, big):
+    cs = []
+    for d, target in ([(2, 5.0e5), (3, 4.5e7), (3, 1.75e8)] if big else [(2, 4.0e5)]):
+        for _ in range(2000):
+            facs = [Fac("rational", rng.uniform(0.5, 2.0)) for _ in range(d)]
+            lims = []
+            for k in range(d):
+                a = rng.uniform(-8.0, -1.0) + 2.0 * k; lims.append((a, a + rng.uniform(4.0, 20.0)))
+            n = 1.0
+            for f, lm in zip(facs, lims): n *= as_count(f.g, *lm)
+            # (the stopping rule itself is accurate on these: the case is not one of the false acceptances K-C13-2)
+            if target <= n <= 1.1 * target and all(abs(as_sim(f.g, *lm) - f.integral(*lm)) <= 1e-10 * f.l1(*lm) for f, lm in zip(facs, lims)): break
+        else: continue
+        lims = [lm if rng.random() < 0.6 else lm[::-1] for lm in lims]
+        flat = " ".join(hx(x) for lm in lims for x in lm)
+        cs.append(Case(f"nested{d}d Adaptive-Simpson 0 {flat} {product_text(facs, 'xyz'[:d])} # nd " + " ".join(f.ann() for f in facs),
+                       (f"nested{d}d", "Adaptive-Simpson", "many-evaluations", "2^%.1f" % math.log2(n))))
+    return cs
+
+
 # ---------------------------------------------------------------- case parsing
 def parse_case(line):
     body, _, ann = line.partition(" # ")
@@ -1322,6 +1560,11 @@ def exact_and_scale(op, lim, fex, ann):
     itself computed by a quadrature), or None when the case carries no annotation; the annotation is checked against the text of the case"""
     if not ann: return None
     kind = ann[0]
+    if kind == "deep":
+        levels = parse_deep(ann)
+        top = levels[0]
+        if deep_text(levels) != fex or top["lims"] != lim: return None
+        return deep_exact(levels)
     if kind in ("1d", "1dcorr", "nd", "ndcorr", "1d@", "nd@"):
         _, facs = parse_ann(ann)
         vars_ = "xyz"[:len(facs)]
@@ -1405,14 +1648,15 @@ def compare_call(line, io, mo):
     scale = es[1] if es else max(abs(tokf(a[0])), abs(tokf(b[0])))
     inner = inner_of(fex)
     nval = 2
-    if method in BOOST or (inner and inner[0] in BOOST):
+    if method in BOOST or (inner and inner[0] in BOOST) or any(m in BOOST for m in deep_methods(fex)):
         # external back end replaced by a stand-in rule in the model: values agree at the accuracy of the method on the smooth
         # families; on the sharply peaked integrands of the 'corr' kinds the stand-in says nothing about the external code
         if ann and ann[0] in CORR: return True, False, ""
         # where boost's trapezoidal rule stops at its refinement cap short of its accuracy (K-C13-3, reported by the predicates) the stand-in has nothing to be compared with
         if method == "Trapezoidal" and es and len(a) > 2 and a[2].isdigit() and trapezoid_refinement_cap(op, lim, ann, int(a[2]), tokf(a[0]), es[0]): return True, False, ""
         slack = dims(op) * acc_of(method) * scale + 1e-13 * scale + 2 * (es[2] if es else 0.0)
-        for k in range(nval):
+        if "@@" in fex and not es: slack += 1e-6 * scale * len(deep_methods(fex))
+        for k in ([0, 1, len(a) - 1] if "@@" in fex and len(a) == len(b) else range(nval)):
             x, y = tokf(a[k]), tokf(b[k])
             if not (abs(x - y) <= slack): return False, False, f"value: impl {x!r} model {y!r} differ by more than {slack:.3g}"
         return True, False, ""
@@ -1421,7 +1665,7 @@ def compare_call(line, io, mo):
         if x == y: continue
         fx, fy = tokf(x), tokf(y)
         if fx is None or fy is None: return False, False, f"token {k}: impl {x} model {y}"
-        if k < nval: ok = abs(fx - fy) <= 1e-12 * scale
+        if k < nval or ("@@" in fex and k == len(a) - 1): ok = abs(fx - fy) <= 1e-12 * scale
         elif k == nval + 1: ok = abs(fx - fy) <= 1e-9 * max(abs(fx), abs(fy), 1.0)      # digest: order of the two Simpson halves is unspecified in C++
         else: ok = abs(fx - fy) <= 1e-12 * max(abs(fx), abs(fy), 1e-300)
         if not ok: return False, False, f"token {k}: impl {fx!r} model {fy!r}"
@@ -1561,6 +1805,15 @@ def predicates_call(line, io):
         if neval != want:
             out.append((f"{op}:sample-count", f"{method} with method_parameter {p} is a {npts}-point rule on each of the {d} level(s): {want} evaluations of the integrand, "
                         f"but it was evaluated {neval} times"))
+    # the adaptive rule nested on a product of factors takes the product of the evaluations its stopping rule takes on each factor (up to a panel whose
+    # acceptance test is decided by rounding: 1e-3); factors on ordinary scales only (a factor 2^-900 takes the products out of the normal range)
+    if method == "Adaptive-Simpson" and d >= 2 and ann and ann[0] == "nd" and not any(equal) and "@" not in fex:
+        _, facs_ = parse_ann(ann)
+        if len(facs_) == d and product_text(facs_, "xyz"[:d]) == fex and all(f.name != "scl" for f in facs_):
+            want = as_expected_evaluations(lim, facs_)
+            if want is not None and abs(neval - want) > 1e-3 * want + 64:
+                out.append((f"{op}:evaluation-count", f"Adaptive-Simpson on a product of {d} factors: its stopping rule takes {want} evaluations (the product of the evaluations per level), "
+                            f"but the integrand was evaluated {int(neval)} times"))
     # every argument stays inside the limits of its own axis
     if neval > 0:
         for k in range(d):
@@ -1577,6 +1830,20 @@ def predicates_call(line, io):
                 sl = 0.0; name = "argument %d" % k
             if not (lo - sl <= mn and mx <= hi + sl):
                 out.append((f"{op}:argument-range", f"{name} ranged over [{mn!r},{mx!r}] but its own limits are [{lo!r},{hi!r}]"))
+    # a user function defined through calls of the library: the same call with every inner call made beforehand from the top level
+    if "@@" in fex.split():
+        flat = v[k0 + 2 + 2 * d] if len(v) > k0 + 2 + 2 * d else None
+        depth = d + sum(LEVELS_OF.get(o, 0) for o in [t_ for j_, t_ in enumerate(fex.split()) if j_ > 0 and fex.split()[j_ - 1] == "@@"])
+        if flat is None: out.append((f"{op}:shape", "the answer of a case with inner calls carries no flat value"))
+        elif not (val == flat or (math.isnan(val) and math.isnan(flat))):
+            out.append((f"{op}:nesting-depth-dependence", f"{method}: the result is {val!r} with the inner calls made from inside the integrand ({depth} levels of Integrate active at once), "
+                        f"but {flat!r} when every inner call is made beforehand from the top level and its value put in its place"))
+        if ann and ann[0] == "deep":
+            levels = parse_deep(ann); top = levels[0]
+            es = exact_and_scale(op, lim, fex, ann) if (top["op"], top["method"], top["p"]) == (op, method, p) else None
+            if es and not (abs(val - es[0]) <= es[2]):
+                out.append((f"{op}:value", f"{method}, {depth} levels of Integrate active at once: result {val!r}, exact value {es[0]!r} (difference {abs(val - es[0]):.3g} > {es[2]:.3g})"))
+        return out
     es = exact_and_scale(op, lim, fex, ann)
     inner = inner_of(fex)
     small = lambda m, q: m == "Gauss-Legendre_2" and 0 < q < 20
@@ -1601,6 +1868,7 @@ def nontrivial(c, io):
     if op == "named1d": return lim[0] >= lim[1] or p != 0 or method not in METHODS or "@" in fex
     iv = [(min(lim[2 * k], lim[2 * k + 1]), max(lim[2 * k], lim[2 * k + 1])) for k in range(dims(op))]
     disjoint = all(iv[i][1] < iv[j][0] or iv[j][1] < iv[i][0] for i in range(len(iv)) for j in range(i))
+    if "@@" in fex.split(): return True
     if op == "spherical": return bool(ann) and (ann[0] == "sphd" or (lim[2], lim[3], lim[4]) != (-1.0, 1.0, 0.0))
     if not ann or not disjoint: return False
     _, facs = parse_ann(ann)
